@@ -418,6 +418,30 @@ class EscapeAnalysis:
         if self.model_none:
             for e in self._none_uses(func, node, stmt):
                 _put(out, e)
+        if getattr(self, 'model_index', True) and \
+                isinstance(node, ast.Assign) and len(node.targets) == 1 and \
+                isinstance(node.targets[0], (ast.Tuple, ast.List)) and \
+                isinstance(node.value, ast.Call) and \
+                isinstance(node.value.func, ast.Attribute) and \
+                node.value.func.attr in ('split', 'rsplit') and \
+                not any(isinstance(e, ast.Starred)
+                        for e in node.targets[0].elts):
+            # a, b = s.split(sep, 1): one piece only when sep is not in s
+            want = len(node.targets[0].elts)
+            args = node.value.args
+            sep = args[0] if args else None
+            if facts is None:
+                facts, self._cur_trys = self.facts(func).get(
+                    stmt, ((), ()))
+            recv = norm(node.value.func.value)
+            guarded = sep is not None and any(
+                pol and isinstance(t, ast.Compare) and len(t.ops) == 1 and
+                isinstance(t.ops[0], ast.In) and
+                norm(t.left) == norm(sep) and
+                norm(t.comparators[0]) == recv for t, pol in facts)
+            if want >= 2 and not guarded:
+                _put(out, Esc('ValueError', 'unpack', func.file,
+                              func.qualname, norm(node, 80), node.lineno))
         if getattr(self, 'model_index', True):
             for n in walk_no_nested(node):
                 if isinstance(n, ast.Subscript) and \
